@@ -5,6 +5,7 @@ import (
 	"encoding/hex"
 	"errors"
 	"fmt"
+	pkgerrors "github.com/pkg/errors"
 	"math/rand"
 	"reflect"
 	"sync"
@@ -524,10 +525,15 @@ func c16Codecs(r *tr.Run, rng *rand.Rand, nm int) int {
 				n++
 				// request-reply replies: result and error text
 				rm := requestreply.BackendPubsubJSONMarshaler[C16J]{}
-				for _, et := range []string{"none", c16Str(c16StrClasses[(round+1)%5], rng, rep), ""} { // (an error whose text is empty is an error)
+				for ei, et := range []string{"none", c16Str(c16StrClasses[(round+1)%5], rng, rep), "", "wrapped"} { // (an error whose text is empty is an error)
 					var herr error
 					if et != "none" {
 						herr = errors.New(et)
+					}
+					if ei == 3 {
+						// an error with context added by a wrapper: the text is the whole text, not that of the innermost cause
+						herr = pkgerrors.WithMessage(pkgerrors.Wrap(errors.New("cause "+c16Str("a", rng, rep)), "middle"), "outer")
+						et = herr.Error()
 					}
 					v2 := *v
 					v2.P = nil
